@@ -113,6 +113,8 @@ impl Writer<TW> for Collect {
     }
 }
 
+impl writer::Normalized for Collect {}
+
 /// Runs a raw stream through the real `Normalize` and returns what comes out.
 pub fn normalize(items: &[Item]) -> Vec<Item> {
     let c = Collect::default();
